@@ -23,7 +23,8 @@ man = {
             "serves_properties": [c["property_id"] for c in CHECKS],
             "kind_free_text": "repository-specific static analyser on CPython ast: class hierarchy + MRO, path enumeration with def-use "
             "expansion, abstract domains (Boolean formulas by truth table, polynomial/rational normal forms, affine index forms, "
-            "fact sets, effect sets); torchphysics is never imported or executed",
+            "fact sets, effect sets, a partial evaluator that interprets the syntax tree of small functions over rule-supplied value models for stated finite instantiations); "
+            "torchphysics is never imported or executed",
         }
     ],
     "checks": [],
